@@ -12,12 +12,15 @@ import (
 
 // WeakenOpts tunes Weaken.
 type WeakenOpts struct {
-	Pct        int  // chance (percent) to replace any visited position
-	Refined    bool // use refinements that are true of the replaced part
-	Dynamic    bool // allow DynamicVal at top level and at tuple/object member level
-	TypedOnly  bool // never use DynamicVal (C12)
-	ForceTop   bool // replace the whole value
-	ForceOne   bool // guarantee at least one replacement
+	Pct         int  // chance (percent) to replace any visited position
+	Refined     bool // use refinements that are true of the replaced part
+	Dynamic     bool // allow DynamicVal at top level and at tuple/object member level
+	TypedOnly   bool // never use DynamicVal (C12)
+	ForceTop    bool // replace the whole value
+	ForceOne    bool // guarantee at least one replacement
+	InflateSets bool // also give a non-empty set extra unknown members, each admitting one of its members: the
+	// abstract set then stores more members than the concrete set has (an unknown member may turn out
+	// to be equal to another member), which is what SetVal([1, unknown]) means for the concrete set {1}
 	maxReplace int
 }
 
@@ -81,8 +84,23 @@ func weaken(r *core.Rand, v cty.Value, o WeakenOpts, path string, top bool, rec 
 		}
 		o.Dynamic = false // members of a collection must keep one type
 		es := v.AsValueSlice()
+		orig := append([]cty.Value(nil), es...)
 		for i := range es {
 			es[i] = weaken(r, es[i], o, fmt.Sprintf("%s{%d}", path, i), false, rec)
+		}
+		if o.InflateSets && r.Chance(1, 4) {
+			for k, n := 0, 1+r.Intn(2); k < n; k++ {
+				e := orig[r.Intn(len(orig))]
+				if e.IsMarked() || !e.IsKnown() {
+					continue
+				}
+				u := AdmittingUnknown(r, e, o.Refined, false)
+				if u.IsKnown() {
+					continue
+				}
+				es = append(es, u)
+				*rec = append(*rec, Weakening{fmt.Sprintf("%s{+}", path), u.GoString()})
+			}
 		}
 		return cty.SetVal(es)
 	case ty.IsMapType():
